@@ -8,6 +8,20 @@ A dataset *spec* is plain JSON-able data (so that it can go into replays and to 
   ["lseq", name, attrs, [[colname, dtype, axis|None], ...], nrows, ranged]
         a LAZY sequence: data = pydap.handlers.lib.IterData(rows, seq); with `ranged` the served data object already
         carries a record range: IterData([rows[0]] + rows, seq)[1:]
+  ["nseq", name, attrs, [[colname, dtype, axis|None], ...], nrows, rep, [inner name, [[colname, dtype], ...], pos], ranged]
+        a NESTED lazy sequence (one inner level): the outer sequence has the base columns and, at child position
+        `pos`, an inner sequence of base columns; data = IterData(rows, seq) where every row carries the list of its
+        inner records.  `rep` says how the SOURCE holds the records (all legal for an IterData stream):
+          "tuple"     rows are tuples, inner records a list of tuples   (what pydap's own tests use)
+          "list"      rows are lists (csv.reader / json.load), inner records a list of tuples
+          "listlist"  rows are lists, inner records a list of lists
+          "nprec"     rows are the records (numpy.void) of a structured array whose inner column has dtype object
+          "tlist"     rows are tuples, inner records a list of lists
+  ["alias", name, of]      the very BaseType OBJECT of the top-level variable `of` placed a second time, inside a
+                           structure (only as a child of a "struct"): one object reachable through two containers
+  ["view", name, of, start, step]   a BaseType whose array is a strided VIEW of the buffer of top-level array `of`
+  a "grid" may carry a 6th element {dim: other grid}: that map's BaseType data is the SAME ndarray as the other grid's
+  "attrs" values may be {"__nd__": [dtype, [values]]}: a (writeable) numpy array as attribute value
 """
 import re
 import zlib
@@ -28,10 +42,17 @@ def _vals(name, dtype, n):
     return ((np.arange(n) * 3 + base) % 11).astype(dtype)
 
 
-def build_var(spec):
+def build_var(spec, top=None):
+    """`top`: the top-level variables built so far (name -> object), for alias / view / shared maps"""
     from pydap.model import BaseType, GridType, SequenceType, StructureType
 
     kind = spec[0]
+    top = top if top is not None else {}
+    if kind == "alias":
+        return top[spec[2]]
+    if kind == "view":
+        _, name, of, start, step = spec
+        return BaseType(name, top[of].data[start::step], dims=("%s_d0" % name,))
     if kind == "base":
         _, name, dtype, shape, attrs = spec
         n = int(np.prod(shape)) if shape else 1
@@ -43,16 +64,18 @@ def build_var(spec):
         _, name, attrs, children = spec
         out = StructureType(name, attributes=_attrs(attrs))
         for c in children:
-            out[c[1]] = build_var(c)
+            out[c[1] if c[0] != "alias" else c[2]] = build_var(c, top)
         return out
     if kind == "grid":
-        _, name, attrs, dtype, dims = spec
+        _, name, attrs, dtype, dims = spec[:5]
+        shared = spec[5] if len(spec) > 5 else {}
         out = GridType(name, attributes=_attrs(attrs))
         shape = [n for _, n in dims]
         out[name] = BaseType(name, _vals(name, dtype, int(np.prod(shape))).reshape(shape),
                              dims=tuple(d for d, _ in dims))
         for d, n in dims:
-            out[d] = BaseType(d, np.arange(n, dtype="f4") * 2 + 1, dims=(d,), attributes={"axis": d[-1].upper()})
+            data = top[shared[d]][d].data if d in shared else np.arange(n, dtype="f4") * 2 + 1
+            out[d] = BaseType(d, data, dims=(d,), attributes={"axis": d[-1].upper()})
         return out
     if kind == "seq":
         _, name, attrs, cols, nrows = spec
@@ -64,6 +87,8 @@ def build_var(spec):
             arr[cname] = _vals(cname, dtype, nrows)
         out.data = arr
         return out
+    if kind == "nseq":
+        return build_nested(spec)
     if kind == "lseq":
         from pydap.handlers.lib import IterData
 
@@ -78,14 +103,81 @@ def build_var(spec):
     raise ValueError(kind)
 
 
+REPS = ["tuple", "list", "listlist", "nprec", "tlist"]
+
+
+def nested_rows(spec):
+    """the source records of a nested lazy sequence in the representation its spec names (fresh objects on every call)"""
+    _, name, attrs, cols, nrows, rep, inner = spec[:7]
+    iname, icols, pos = inner
+    columns = [_vals(cname, dtype, nrows).tolist() for cname, dtype, _ in cols]
+    rows = []
+    for i in range(nrows):
+        k = (zlib.crc32(("%s.%s" % (name, iname)).encode()) + 3 * i) % 4
+        icolumns = [_vals("%s%d" % (cname, i), dtype, k).tolist() for cname, dtype in icols]
+        irecs = [tuple(c[j] for c in icolumns) for j in range(k)]
+        if rep in ("listlist", "tlist"):
+            irecs = [list(r) for r in irecs]
+        row = [c[i] for c in columns]
+        row.insert(pos, irecs)
+        rows.append(row)
+    if rep in ("tuple", "tlist"):
+        return [tuple(r) for r in rows]
+    if rep in ("list", "listlist"):
+        return rows
+    if rep == "nprec":
+        names = [c for c, _, _ in cols]
+        names.insert(pos, iname)
+        kinds = [("U5" if dt.startswith("S") else dt) for _, dt, _ in cols]
+        kinds.insert(pos, "O")
+        arr = np.empty(nrows, dtype=list(zip(names, kinds)))
+        for i, r in enumerate(rows):
+            for n, v in zip(names, r):
+                arr[n][i] = v
+        return arr
+    raise ValueError(rep)
+
+
+def build_nested(spec):
+    from pydap.handlers.lib import IterData
+    from pydap.model import BaseType, SequenceType
+
+    _, name, attrs, cols, nrows, rep, inner = spec[:7]
+    ranged = len(spec) > 7 and spec[7]
+    iname, icols, pos = inner
+    out = SequenceType(name, attributes=_attrs(attrs))
+    kids = [BaseType(cname, attributes=({"axis": axis} if axis else {})) for cname, dtype, axis in cols]
+    isq = SequenceType(iname, attributes={"note": "inner"})
+    for cname, dtype in icols:
+        isq[cname] = BaseType(cname)
+    kids.insert(pos, isq)
+    for k in kids:
+        out[k.name] = k
+    rows = nested_rows(spec)
+    if ranged and nrows:
+        first = rows[:1]
+        rows = np.concatenate([first, rows]) if rep == "nprec" else list(first) + list(rows)
+        out.data = IterData(rows, out)[1:]
+    else:
+        out.data = IterData(rows, out)
+    return out
+
+
 def is_seq(v):
-    return v[0] in ("seq", "lseq")
+    return v[0] in ("seq", "lseq", "nseq")
+
+
+def is_lazy(v):
+    return v[0] in ("lseq", "nseq")
 
 
 def _attrs(a):
     # fresh containers on every build (nested dict and list included)
     out = {}
     for k, v in (a or {}).items():
+        if isinstance(v, dict) and "__nd__" in v:
+            out[k] = np.array(v["__nd__"][1], dtype=v["__nd__"][0])      # a writeable array as attribute value
+            continue
         out[k] = {kk: (list(vv) if isinstance(vv, list) else vv) for kk, vv in v.items()} if isinstance(v, dict) \
             else list(v) if isinstance(v, list) else v
     return out
@@ -95,8 +187,10 @@ def build_dataset(spec):
     from pydap.model import DatasetType
 
     ds = DatasetType(spec["name"], attributes=_attrs(spec.get("attrs")))
+    top = {}
     for v in spec["vars"]:
-        ds[v[1]] = build_var(v)
+        top[v[1]] = build_var(v, top)
+        ds[v[1]] = top[v[1]]
     return ds
 
 
@@ -111,10 +205,45 @@ def freeze(ds):
     return ds
 
 
+_CSV_DIR = []
+
+
+def csv_path(spec):
+    """the CSV file of a {"csv": True} spec (written once per process into a private directory; the handler re-opens it
+    for every iteration, so every request reads its own, freshly allocated, list records)"""
+    import csv
+    import os
+    import tempfile
+
+    if not _CSV_DIR:
+        import atexit
+        import shutil
+
+        _CSV_DIR.append(tempfile.mkdtemp(prefix="c13csv-"))
+        owner = os.getpid()
+        atexit.register(lambda d=_CSV_DIR[0]: shutil.rmtree(d, ignore_errors=True) if os.getpid() == owner else None)
+    _, name, attrs, cols, nrows, _ = spec["vars"][0]
+    path = os.path.join(_CSV_DIR[0], "%08x.csv" % zlib.crc32(repr(spec).encode()))
+    if not os.path.exists(path):
+        columns = [_vals(c, dt, nrows).tolist() for c, dt, _ in cols]
+        with open(path + ".tmp", "w", newline="") as f:
+            w = csv.writer(f, quoting=csv.QUOTE_NONNUMERIC)
+            w.writerow([c for c, _, _ in cols])
+            for i in range(nrows):
+                w.writerow([float(c[i]) if not isinstance(c[i], str) else c[i] for c in columns])
+        os.replace(path + ".tmp", path)
+    return path
+
+
 def make_app(spec, frozen=True):
     from pydap.handlers.lib import BaseHandler
     from pydap.wsgi.ssf import ServerSideFunctions
 
+    if spec.get("csv"):
+        from pydap.handlers.csv import CSVHandler
+
+        handler = CSVHandler(csv_path(spec))
+        return ServerSideFunctions(handler), handler, handler.dataset
     ds = build_dataset(spec)
     if frozen:
         freeze(ds)
@@ -150,6 +279,8 @@ FIXED_REQUESTS = [
     "/d.dods?mean(s,0)", "/d.dods?s.w&s.w=\"bc\"", "/d.dods?a,a", "/d.dods?g.gx,g.g", "/d.ascii?s&s.i<4&s.i>0",
     # shorthand names (a nested variable named without its container) beside a function call
     "/d.dods?p,mean(b,0)", "/d.dds?q,mean(g,1)", "/d.ascii?r,mean(a)", "/d.dods?i,mean(b,1)",
+    # the DMR of a constrained dataset
+    "/d.dmr?a[1:2:7]", "/d.dmr?s.i&s.i>1", "/d.dmr?g.gx,st.in", "/d.dmr?mean(b,0)", "/d.dmr?nope",
 ]
 
 
@@ -173,6 +304,91 @@ LAZY_REQUESTS = [
 ]
 
 
+# nested lazy sequences (one inner level), one per representation of the source records; `ntl` is served already ranged
+NEST_SPEC = {
+    "name": "d", "attrs": {"title": "nested"},
+    "vars": [
+        ["base", "a", "i4", [4], {"units": "m"}],
+        ["nseq", "nt", {"note": "tuples"}, [["i", "i4", "x"], ["f", "f8", "y"]], 5, "tuple", ["mt", [["t", "i4"], ["p", "f8"]], 2]],
+        ["nseq", "nl", {"note": "lists"}, [["j", "i4", "x"], ["w", "S", None]], 5, "list", ["ml", [["u", "i4"], ["q", "i2"]], 1]],
+        ["nseq", "nll", {"note": "lists of lists"}, [["k", "i2", None]], 4, "listlist", ["mll", [["v", "i4"], ["r", "f8"], ["z", "S"]], 0]],
+        ["nseq", "nr", {"note": "numpy records"}, [["h", "i4", "x"], ["e", "f8", None]], 5, "nprec", ["mr", [["c", "i4"], ["o", "f8"]], 2]],
+        ["nseq", "ntl", {"note": "ranged"}, [["n", "i4", None]], 4, "tlist", ["mtl", [["b", "i4"], ["y", "i4"]], 1], True],
+    ],
+}
+
+
+def nested_requests(spec, per_seq=None, rng=None):
+    """requests on every nested lazy sequence of `spec`: plain, selections on outer and on inner columns, projections
+    of inner columns, record ranges, combinations"""
+    out = []
+    for p, v in leaves(spec):
+        if v[0] != "nseq":
+            continue
+        s = ".".join(p)
+        cols, nrows, inner = v[3], v[4], v[6]
+        m, icols = inner[0], inner[1]
+        num = [c[0] for c in cols if c[1] != "S"]
+        inum = [c[0] for c in icols if c[1] != "S"]
+        o = num[0] if num else None
+        x = inum[0]
+        y = inum[-1]
+        hi = max(nrows - 1, 0)
+        rs = ["/d.dods?%s" % s, "/d.ascii?%s" % s, "/d.dds?%s" % s,
+              "/d.dods?%s&%s.%s.%s>4" % (s, s, m, x), "/d.dods?%s.%s.%s>4" % (s, m, x), "/d.dds?%s.%s.%s<7" % (s, m, x),
+              "/d.ascii?%s.%s.%s&%s.%s.%s<7" % (s, m, y, s, m, x), "/d.dods?%s&%s.%s.%s>2&%s.%s.%s<9" % (s, s, m, x, s, m, y),
+              "/d.ascii?%s&%s.%s.%s>=3" % (s, s, m, x),
+              "/d.dods?%s.%s" % (s, m), "/d.ascii?%s.%s.%s" % (s, m, x), "/d.dods?%s.%s.%s,%s.%s.%s" % (s, m, y, s, m, x),
+              "/d.dods?%s[1:%d]" % (s, hi), "/d.ascii?%s[0:2:%d]" % (s, hi), "/d.dods?%s.%s[0:1]" % (s, m),
+              "/d.ascii?%s[1:%d]&%s.%s.%s>4" % (s, hi, s, m, x), "/d.ascii?%s.%s.%s[0:2]&%s.%s.%s!=5" % (s, m, x, s, m, y),
+              "/d.dods?%s.%s.%s=~1" % (s, m, x), "/d.dods?%s&%s.%s.nope>1" % (s, s, m)]
+        if o:
+            rs += ["/d.dods?%s&%s.%s>3" % (s, s, o), "/d.ascii?%s.%s&%s.%s<=6" % (s, m, s, o),
+                   "/d.dods?%s.%s,%s.%s.%s" % (s, o, s, m, y), "/d.dods?%s.%s,%s.%s.%s&%s.%s>2&%s.%s.%s>=3" % (s, o, s, m, x, s, o, s, m, x),
+                   "/d.ascii?%s.%s[1:%d]" % (s, o, hi)]
+        if rng is not None and per_seq is not None:
+            rs = rng.sample(rs, min(per_seq, len(rs)))
+        out += rs
+    return out
+
+
+# the CSV handler: a file-backed lazy sequence named "sequence"; `CSVData.stream` re-opens the file per iteration and
+# csv.reader yields LISTS
+CSV_SPEC = {"name": "d", "attrs": {"title": "csv"}, "csv": True,
+            "vars": [["lseq", "sequence", {}, [["index", "f8", None], ["temperature", "f8", None], ["site", "S", None]], 7, False]]}
+
+CSV_REQUESTS = [
+    "/d.dds", "/d.das", "/d.dods", "/d.ascii", "/d.dmr", "/d.ver", "/d.dods?sequence.index", "/d.ascii?sequence.site,sequence.index",
+    "/d.dods?sequence&sequence.index>3", "/d.ascii?sequence.site&sequence.temperature<7&sequence.index>=2",
+    "/d.dods?sequence[1:2:5]", "/d.ascii?sequence.site[0:2]", "/d.dods?sequence&sequence.nope>1", "/d.dods?sequence.site&sequence.site=\"bc\"",
+    "/d.dods?sequence&sequence.index>sequence.temperature", "/d.dds?sequence.temperature", "/d.dods?sequence[x]", "/d.dods?index",
+    "/d.dods?sequence&bounds(0,9,0,9,0,9,00Z01JAN1970,00Z01JAN1970)",
+]
+
+
+# aliasing that immutable fixtures cannot show: two arrays that are strided views of a third one's buffer, two grids
+# whose maps are the same ndarray objects, one BaseType object placed in two containers, attribute values that are
+# (writeable) numpy arrays, lists and dicts of lists
+SHARED_SPEC = {
+    "name": "d", "attrs": {"title": "shared", "levels": {"__nd__": ["f8", [1.5, 2.5, 3.5]]}, "history": ["a", "b"]},
+    "vars": [
+        ["base", "buf", "i4", [12], {"valid_range": {"__nd__": ["i4", [11, 0]]}, "flags": [1, 0], "meta": {"k": [2, 1]}}],
+        ["view", "ev", "buf", 0, 2],
+        ["view", "od", "buf", 1, 3],
+        ["grid", "g1", {"long_name": "one"}, "i2", [["x", 2], ["y", 3]]],
+        ["grid", "g2", {"long_name": "two"}, "f4", [["x", 2], ["y", 3]], {"x": "g1", "y": "g1"}],
+        ["struct", "st", {"foo": "bar"}, [["alias", "buf", "buf"], ["base", "p", "i4", [], {}]]],
+    ],
+}
+
+SHARED_REQUESTS = [
+    "/d.dds", "/d.das", "/d.dods", "/d.ascii", "/d.dmr", "/d.html", "/d.ver", "/d.dods?buf[1:2:9]", "/d.dods?ev", "/d.ascii?od[1:2]",
+    "/d.dods?ev,od,buf", "/d.dods?g1", "/d.dods?g2[0:1][1:2]", "/d.dods?g2.x,g1.x", "/d.ascii?g1.g1[0][0:2]", "/d.dods?g2.y[1:2]",
+    "/d.dods?st", "/d.dods?st.buf[0:3]", "/d.ascii?st.buf,buf", "/d.dods?mean(buf)", "/d.dods?mean(g2,1)", "/d.ascii?ev,mean(g1,0)",
+    "/d.dods?mean(ev,0)", "/d.dds?st.p", "/d.das?buf", "/d.dods?buf[20:30]", "/d.dods?g1[x]",
+]
+
+
 def rand_spec(rng):
     """a random dataset: 2..6 top-level variables, nesting to depth 2, globally unique names"""
     names = iter(["v%d" % i for i in range(100)])
@@ -184,6 +400,8 @@ def rand_spec(rng):
             return {}
         if r < 0.7:
             return {"units": "m"}
+        if r < 0.8:
+            return {"units": "m", "valid_range": {"__nd__": ["f4", [9.5, 0.5]]}, "flags": [1, 0]}
         return {"units": "m", "meta": {"k": 1, "l": [1, 2]}, "flags": [0, 1]}
 
     def base(depth):
@@ -202,6 +420,10 @@ def rand_spec(rng):
             return ["grid", n, attrs(), rng.choice(ints), [[n + "x", rng.randint(1, 3)], [n + "y", rng.randint(1, 4)]][:rng.randint(1, 2)]]
         cols = [[next(names), rng.choice(["i4", "f8", "i2", "S"]), ax] for ax in
                 rng.sample(["x", "y", "z", None, None], rng.randint(1, 4))]
+        if depth == 0 and rng.random() < 0.3:
+            icols = [[next(names), rng.choice(["i4", "f8", "i2", "S"] if i else ["i4", "i2"])] for i in range(rng.randint(1, 3))]
+            return ["nseq", next(names), attrs(), cols, rng.randint(1, 5), rng.choice(REPS),
+                    [next(names), icols, rng.randint(0, len(cols))], rng.random() < 0.3]
         if rng.random() < 0.25:
             return ["lseq", next(names), attrs(), cols, rng.randint(1, 6), rng.random() < 0.5]
         return ["seq", next(names), attrs(), cols, rng.randint(0, 6)]
@@ -224,6 +446,10 @@ def leaves(spec):
     return out
 
 
+NEST_REQUESTS = ["/d.dds", "/d.das", "/d.dods", "/d.ascii", "/d.asc", "/d.ver", "/d.dmr", "/d.html", "/d.dods?a[1:2]"] \
+    + nested_requests(NEST_SPEC)
+
+
 def hyperslab(rng, shape):
     out = ""
     for n in shape:
@@ -243,6 +469,8 @@ def rand_request(rng, spec, kind=None):
     kind = kind or rng.choice(["plain", "proj", "proj", "slab", "slab", "sel", "sel", "func", "func", "malformed"])
     resp = rng.choice(["dods", "dods", "dods", "ascii", "dds", "das", "asc"] + RESPONSES)
     lv = leaves(spec)
+    if any(v[0] == "nseq" for _, v in lv) and rng.random() < 0.4:
+        return rng.choice(nested_requests(spec)), "nested"
     if kind == "plain":
         return "/d.%s" % resp, kind
     if kind == "malformed":
@@ -338,35 +566,99 @@ def show(outcome):
     return "%s len=%d crc=%08x head=%r" % (s, len(b), zlib.crc32(b), b[:40])
 
 
+def deep_value(v, depth=0):
+    """address-free value of anything a stream, an attribute or a data slot can hold, with the TYPE of every container
+    (a tuple turned into a list, a record array into a list of rows is a change), no depth cut for plain containers"""
+    from props import c13_modstate as M
+
+    if v is None or isinstance(v, (bool, int, str, bytes)):
+        return v
+    if isinstance(v, float):
+        return ("f", repr(v))
+    if isinstance(v, np.ndarray):
+        if v.dtype.hasobject:
+            return ("nd-obj", str(v.dtype), v.shape, tuple(deep_value(x, depth + 1) for x in v.ravel().tolist()))
+        return ("nd", str(v.dtype), v.shape, v.tobytes())
+    if isinstance(v, np.void):
+        return ("np.void", str(v.dtype), tuple(deep_value(x, depth + 1) for x in v.tolist()))
+    if isinstance(v, np.generic):
+        return ("np", str(v.dtype), v.tobytes())
+    if depth > 40:
+        return ("deep", type(v).__name__)
+    if isinstance(v, (list, tuple)):
+        kind = "list" if isinstance(v, list) else "tuple"
+        return (kind, tuple(deep_value(x, depth + 1) for x in v))
+    if isinstance(v, dict):
+        return ("dict", tuple((deep_value(k, depth + 1), deep_value(x, depth + 1)) for k, x in list(v.items())))
+    return M.fp(v)
+
+
 def snapshot(ds):
-    """deep, order-sensitive snapshot of a served dataset: structure, hidden children, ids, attributes, data"""
+    """deep, order-sensitive snapshot of a served dataset: structure, hidden children, ids, attributes (values by
+    content, arrays included), data; for a lazy data object its whole state, THE RECORDS ITS SOURCE HOLDS (every
+    container with its type, to any depth: tuples, lists, lists of lists, record arrays, object columns) and the
+    records it yields now.  Each part is labelled so that two snapshots can be compared part by part."""
     from pydap.model import BaseType, SequenceType, StructureType
 
     from props import c13_modstate as M
 
-    def data(d):
+    out = []
+
+    def data(where, d):
         if isinstance(d, np.ndarray):
-            return ("nd", str(d.dtype), d.shape, d.tobytes())
-        # any other data object (IterData: stream, template, ifilter/imap/islice lists, level): its whole state,
-        # address-free, and for a lazy stream the records it yields now
+            out.append((where + " data", ("nd", str(d.dtype), d.shape, d.tobytes() if not d.dtype.hasobject
+                                          else deep_value(d))))
+            # a view: the buffer it looks into is reachable through it
+            if d.base is not None and isinstance(d.base, np.ndarray) and not d.base.dtype.hasobject:
+                out.append((where + " data.base", ("nd", str(d.base.dtype), d.base.shape, d.base.tobytes())))
+            return
         rows = None
         if hasattr(d, "islice") and hasattr(d, "stream"):
+            out.append((where + " source records", deep_value(d.stream)
+                        if isinstance(d.stream, (list, tuple, np.ndarray)) else ("opaque", type(d.stream).__name__)))
+            out.append((where + " filters/maps/slices", (len(d.ifilter), len(d.imap), repr(d.islice), d.level)))
             try:
                 rows = repr(list(iter(d)))
             except Exception as e:
                 rows = "raises %s" % type(e).__name__
-        return ("obj", type(d).__name__, repr(M.fp(d)), rows)
-
-    def attrs(a):
-        return repr(a)
+            out.append((where + " records yielded", rows))
+        if rows is not None:
+            # (the template and root are DAP objects of the served tree or clones: their state by name, id and keys)
+            t, r = d.template, d.root
+            out.append((where + " data object state",
+                        (type(d).__name__, tuple(sorted(d.__dict__)), type(t).__name__, t.id,
+                         tuple(getattr(t, "_visible_keys", ())), tuple(getattr(t, "_dict", {}).keys()), r.id,
+                         tuple(getattr(r, "_visible_keys", ())))))
+        else:
+            out.append((where + " data object state", (type(d).__name__, repr(M.fp(d)))))
 
     def go(v):
-        head = (type(v).__name__, v.name, v.id, attrs(v.attributes), tuple(sorted(k for k in v.__dict__)))
+        where = "%s %r (id %r)" % (type(v).__name__, v.name, v.id)
+        out.append((where + " attributes", deep_value(dict(v.attributes))))
+        out.append((where + " instance fields", tuple(sorted(k for k in v.__dict__))))
         if isinstance(v, BaseType):
-            return head + (data(v.data), tuple(v.dims))
+            data(where, v.data)
+            out.append((where + " dims", tuple(v.dims)))
         if isinstance(v, StructureType):
-            extra = data(v.data) if isinstance(v, SequenceType) else None
-            return head + (tuple(v._visible_keys), tuple(v._dict.keys()), extra,
-                           tuple(go(c) for c in v._dict.values()))
-        return head
-    return go(ds)
+            if isinstance(v, SequenceType):
+                data(where, v.data)
+            out.append((where + " keys", (tuple(v._visible_keys), tuple(v._dict.keys()))))
+            for c in v._dict.values():
+                go(c)
+    go(ds)
+    return tuple(out)
+
+
+def snapshot_diff(a, b, limit=4):
+    """the labelled parts in which two snapshots differ"""
+    out = []
+    da, db = dict(a), dict(b)
+    for k, _ in list(a) + [kv for kv in b if kv[0] not in da]:
+        if da.get(k, "<absent>") != db.get(k, "<absent>") and k not in [o.split(":")[0] for o in out]:
+            out.append("%s: %s -> %s" % (k, _short(da.get(k, "<absent>")), _short(db.get(k, "<absent>"))))
+    return out[:limit]
+
+
+def _short(x):
+    r = repr(x)
+    return r if len(r) <= 300 else r[:300] + "..."
